@@ -10,7 +10,14 @@
 //! A case carries the description, the options (all 2^9 flag combinations are walked), covering samples generated from
 //! the same description (every variant, `Some`, non-empty collections) and overwrites (at real paths of the traced tree
 //! and at perturbed paths).  `exec` reports `from_type`, `from_samples(covering)`, and the overwritten runs.
-use super::trace::{build_opts, default_opts, fields_json, OPT_KEYS};
+//!
+//! API coverage (notes/api_coverage.md), on the cases that carry `"api"`: the same tracing with the options reached another
+//! way (`perm`: `TracingOptions::new()` + setters in another order, some called twice, overwrite given a `String` path
+//! and a marrow `Field`; `fields`: the public fields assigned directly), through every other `SchemaLike` implementor
+//! (`schemalike`: `SerdeArrowSchema`, `Vec<FieldRef>`, `Vec<arrow Field>`, `Vec<arrow2 Field>`, converted back to marrow
+//! fields), and (`defaults`) with an untouched `TracingOptions::default()` / `::new()` where the case's options are the
+//! documented defaults, together with a dump of the public fields of both.
+use super::trace::{build_opts, build_opts_fields, build_opts_perm, default_opts, fields_json, opts_dump, OPT_KEYS};
 use crate::outcome;
 use crate::rng::Rng;
 use crate::sval::{self, intern, SVal};
@@ -590,7 +597,12 @@ pub fn gen(ctx: &Ctx) -> Vec<Value> {
                 _ => ows.push(json!([p, {"name": nm, "dt": dt, "nullable": r.bool()}])),
             }
         }
-        push(&mut out, json!({"kind": "random", "ty": ty, "opts": o, "samples": samples, "overwrites": ows}), sub);
+        let mut case = json!({"kind": "random", "ty": ty, "opts": o, "samples": samples, "overwrites": ows});
+        let mut x = Rng::new(sub ^ 0xA91_C07E);
+        if x.chance(1, 4) {
+            case["api"] = json!(*x.pick(&["perm", "perm", "fields", "schemalike"]));
+        }
+        push(&mut out, case, sub);
     }
     // (1b) maps whose KEY needs more exploration passes than anything else in the type (and the mirror image)
     for mask in [0x100u64, 0x000, 0x1ff, 0x0a5] {
@@ -631,6 +643,15 @@ pub fn gen(ctx: &Ctx) -> Vec<Value> {
         let sub = rng.fork().0;
         push(&mut out, json!({"kind": "budget", "ty": s_("S", vec![("e", en_("E", vec![]))]), "opts": default_opts(), "samples": [], "overwrites": []}), sub);
     }
+    // API coverage: the documented defaults, untouched (`TracingOptions::default()` / `::new()`), on every zoo type and
+    // on types that show every default (maps, sequences, strings, enums without data, nullable-only fields)
+    for name in ZOO {
+        let sub = rng.fork().0;
+        let ty = zoo_desc(name);
+        let n = width(&ty).min(64);
+        let samples: Vec<Value> = (0..n).map(|k| sample_at(&ty, k)).collect();
+        push(&mut out, json!({"kind": "zoo", "zoo": name, "ty": ty, "opts": default_opts(), "samples": samples, "overwrites": [], "api": "defaults"}), sub);
+    }
     out
 }
 
@@ -661,6 +682,81 @@ fn run_from_samples(samples: &[Value], opts: &Value) -> Value {
     })
 }
 
+fn marrow_of_arrow(fs: &[arrow_schema::Field]) -> Result<Value, serde_arrow::Error> {
+    let out: Vec<Field> = fs.iter().map(Field::try_from).collect::<Result<_, _>>()?;
+    Ok(fields_json(&out))
+}
+
+fn marrow_of_arrow2(fs: &[arrow2::datatypes::Field]) -> Result<Value, serde_arrow::Error> {
+    let out: Vec<Field> = fs.iter().map(Field::try_from).collect::<Result<_, _>>()?;
+    Ok(fields_json(&out))
+}
+
+/// API coverage: `[name, outcome]` lists that must repeat `impl` (`impl_api`) and `impl_samples` (`impl_samples_api`)
+fn run_api(api: &str, input: &Value, samples: &[Value], case: &mut Value) {
+    use serde_arrow::schema::SerdeArrowSchema;
+    type ARef = arrow_schema::FieldRef;
+    type AField = arrow_schema::Field;
+    type A2Field = arrow2::datatypes::Field;
+    let ty = &input["ty"];
+    let seed = input["seed"].as_u64().unwrap_or(0);
+    // the options of the runs that carry the overwrites as well, when there are any (as `impl_ow` does)
+    let mut opts = input["opts"].clone();
+    let mut ty_out: Vec<Value> = Vec::new();
+    let mut sm_out: Vec<Value> = Vec::new();
+    CURRENT_TY.with(|t| *t.borrow_mut() = ty.clone());
+    let observe = |s: &SerdeArrowSchema| -> Result<Value, serde_arrow::Error> {
+        marrow_of_arrow(&Vec::<AField>::try_from(s)?)
+    };
+    match api {
+        "perm" | "fields" => {
+            if let Some(ows) = input["overwrites"].as_array() {
+                if !ows.is_empty() {
+                    opts["overwrites"] = Value::Array(ows.clone());
+                    case["api_with_overwrites"] = json!(true);
+                }
+            }
+            let make = || if api == "perm" { build_opts_perm(&opts, seed) } else { build_opts_fields(&opts) };
+            ty_out.push(json!([api, outcome::run(|| Ok::<Value, serde_arrow::Error>(fields_json(&Vec::<Field>::from_type::<DynRoot>(make()?)?)))]));
+            if !samples.is_empty() {
+                sm_out.push(json!([api, outcome::run(|| Ok::<Value, serde_arrow::Error>(fields_json(&Vec::<Field>::from_samples(SampleRows(samples), make()?)?)))]));
+            }
+        }
+        "schemalike" => {
+            let o = || build_opts(&opts);
+            ty_out.push(json!(["SerdeArrowSchema", outcome::run(|| observe(&SerdeArrowSchema::from_type::<DynRoot>(o()?)?))]));
+            ty_out.push(json!(["Vec<FieldRef>", outcome::run(|| {
+                let refs = Vec::<ARef>::from_type::<DynRoot>(o()?)?;
+                marrow_of_arrow(&refs.iter().map(|f| f.as_ref().clone()).collect::<Vec<_>>())
+            })]));
+            ty_out.push(json!(["Vec<arrow Field>", outcome::run(|| marrow_of_arrow(&Vec::<AField>::from_type::<DynRoot>(o()?)?))]));
+            ty_out.push(json!(["Vec<arrow2 Field>", outcome::run(|| marrow_of_arrow2(&Vec::<A2Field>::from_type::<DynRoot>(o()?)?))]));
+            if !samples.is_empty() {
+                sm_out.push(json!(["SerdeArrowSchema", outcome::run(|| observe(&SerdeArrowSchema::from_samples(SampleRows(samples), o()?)?))]));
+                sm_out.push(json!(["Vec<FieldRef>", outcome::run(|| {
+                    let refs = Vec::<ARef>::from_samples(SampleRows(samples), o()?)?;
+                    marrow_of_arrow(&refs.iter().map(|f| f.as_ref().clone()).collect::<Vec<_>>())
+                })]));
+                sm_out.push(json!(["Vec<arrow Field>", outcome::run(|| marrow_of_arrow(&Vec::<AField>::from_samples(SampleRows(samples), o()?)?))]));
+                sm_out.push(json!(["Vec<arrow2 Field>", outcome::run(|| marrow_of_arrow2(&Vec::<A2Field>::from_samples(SampleRows(samples), o()?)?))]));
+            }
+        }
+        "defaults" => {
+            for (name, make) in [("default()", TracingOptions::default as fn() -> TracingOptions), ("new()", TracingOptions::new as fn() -> TracingOptions)] {
+                ty_out.push(json!([name, outcome::run(|| Ok::<Value, serde_arrow::Error>(fields_json(&Vec::<Field>::from_type::<DynRoot>(make())?)))]));
+                if !samples.is_empty() {
+                    sm_out.push(json!([name, outcome::run(|| Ok::<Value, serde_arrow::Error>(fields_json(&Vec::<Field>::from_samples(SampleRows(samples), make())?)))]));
+                }
+            }
+            case["default_fields"] = json!({"default()": opts_dump(&TracingOptions::default()), "new()": opts_dump(&TracingOptions::new()),
+                "eq": TracingOptions::default() == TracingOptions::new()});
+        }
+        other => panic!("harness: unknown api variant {other}"),
+    }
+    case["impl_api"] = Value::Array(ty_out);
+    case["impl_samples_api"] = Value::Array(sm_out);
+}
+
 pub fn exec(input: &Value) -> Value {
     let mut case = input.clone();
     let ty = &input["ty"];
@@ -675,6 +771,9 @@ pub fn exec(input: &Value) -> Value {
     let samples = input["samples"].as_array().cloned().unwrap_or_default();
     if !samples.is_empty() {
         case["impl_samples"] = run_from_samples(&samples, opts);
+    }
+    if let Some(api) = input.get("api").and_then(|a| a.as_str()) {
+        run_api(api, input, &samples, &mut case);
     }
     let ows = input["overwrites"].as_array().cloned().unwrap_or_default();
     if !ows.is_empty() {
